@@ -1,7 +1,516 @@
-//! C11 — not built yet.
+//! C11 — parse structure is invariant under layout and keyword case.
+//!
+//! Direct observation: for every fully parsable corpus text, the code-only serialisation of
+//! the parse tree (node types over code tokens, keywords compared case-insensitively) of the
+//! original and of each perturbed text must be equal.
+//! Kernel correspondence (Layout/Model.v): `skip_start_index_forward_to_code`,
+//! `skip_stop_index_backward_to_code`, `StringParser`/`MultiStringParser` matching, block
+//! comment subdivision.
+use ahash::AHashMap;
+use serde_json::{Value, json};
+use sqruff_lib::core::linter::core::Linter;
+use sqruff_lib_core::dialects::syntax::SyntaxKind;
+use sqruff_lib_core::parser::context::ParseContext;
+use sqruff_lib_core::parser::lexer::StringOrTemplate;
+use sqruff_lib_core::parser::match_algorithms::{skip_start_index_forward_to_code, skip_stop_index_backward_to_code};
+use sqruff_lib_core::parser::matchable::MatchableTrait;
+use sqruff_lib_core::parser::parsers::{MultiStringParser, StringParser};
+use sqruff_lib_core::parser::segments::base::{ErasedSegment, Tables};
+
 use crate::common::*;
 
-pub fn main(_args: &Args) {
-    eprintln!("c11: not built yet");
-    std::process::exit(2);
+fn mk_linter(dialect: &str) -> Linter {
+    let src = format!("[sqruff]\ndialect = {}\nrules = core\n", dialect);
+    Linter::new(sqruff_lib::core::config::FluffConfig::from_source(&src, None), None, None, true)
+}
+
+fn fnv(s: &str) -> String {
+    let mut h: u64 = 0xcbf29ce484222325;
+    for b in s.as_bytes() {
+        h ^= *b as u64;
+        h = h.wrapping_mul(0x100000001b3);
+    }
+    format!("{:010x}", h & 0xff_ffff_ffff)
+}
+
+// ------------------------------------------------------------------ tree views
+#[derive(Clone)]
+struct Leaf {
+    kind: SyntaxKind,
+    raw: String,
+    start: usize, // byte offset in the text
+    code: bool,
+}
+
+fn leaves(tree: &ErasedSegment) -> Vec<Leaf> {
+    let mut out = vec![];
+    let mut pos = 0usize;
+    for s in tree.get_raw_segments() {
+        let raw = s.raw().to_string();
+        let n = raw.len();
+        out.push(Leaf { kind: s.get_type(), raw, start: pos, code: s.is_code() });
+        pos += n;
+    }
+    out
+}
+
+/// code-only serialisation: `type(children…)` for nodes that contain code, `type:raw` for code
+/// leaves (keyword raws upper-cased), nothing for non-code.
+fn shape(seg: &ErasedSegment, out: &mut String) {
+    if seg.segments().is_empty() {
+        if seg.is_code() {
+            out.push_str(seg.get_type().as_str());
+            out.push(':');
+            if seg.get_type() == SyntaxKind::Keyword {
+                out.push_str(&seg.raw().to_uppercase());
+            } else {
+                out.push_str(seg.raw());
+            }
+            out.push(' ');
+        }
+        return;
+    }
+    if !seg.is_code() {
+        return;
+    }
+    out.push_str(seg.get_type().as_str());
+    out.push('(');
+    for c in seg.segments() {
+        shape(c, out);
+    }
+    out.push(')');
+}
+
+struct Parsed {
+    tree: ErasedSegment,
+    shape: String,
+}
+/// Ok(None): not fully parsable. Err: panic.
+fn parse(linter: &Linter, sql: &str) -> Result<Option<Parsed>, String> {
+    catch(|| {
+        let tables = Tables::default();
+        let p = linter.parse_string(&tables, sql, None).ok()?;
+        if !p.violations.is_empty() {
+            return None;
+        }
+        let tree = p.tree?;
+        if tree.raw().as_str() != sql {
+            return None;
+        }
+        let mut s = String::new();
+        shape(&tree, &mut s);
+        Some(Parsed { tree, shape: s })
+    })
+}
+
+// ------------------------------------------------------------------ perturbations
+pub const PERTURBATIONS: [&str; 12] = [
+    "space->spaces",
+    "space->tab",
+    "space->newline",
+    "block-comment-in-whitespace",
+    "block-comment-left-of-whitespace",
+    "block-comment-right-of-whitespace",
+    "inline-comment-before-newline",
+    "blank-line-doubling",
+    "keywords-upper",
+    "keywords-lower",
+    "keywords-swap",
+    "mixed",
+];
+
+fn swapcase(s: &str) -> String {
+    s.chars().map(|c| if c.is_ascii_uppercase() { c.to_ascii_lowercase() } else { c.to_ascii_uppercase() }).collect()
+}
+
+/// positions (leaf indices) a perturbation may touch
+fn sites(ls: &[Leaf], p: usize) -> Vec<usize> {
+    let mut in_block = false;
+    let mut out = vec![];
+    for (i, l) in ls.iter().enumerate() {
+        let is_comment = matches!(l.kind, SyntaxKind::BlockComment | SyntaxKind::Comment);
+        if is_comment && l.raw.starts_with("/*") && !(l.raw.ends_with("*/") && l.raw.len() >= 4) {
+            in_block = true;
+        } else if in_block && is_comment && l.raw.ends_with("*/") {
+            in_block = false;
+            continue;
+        }
+        if in_block {
+            continue;
+        }
+        let ok = match p {
+            0..=5 => l.kind == SyntaxKind::Whitespace,
+            6 | 7 => l.kind == SyntaxKind::Newline,
+            11 => l.kind == SyntaxKind::Whitespace || l.kind == SyntaxKind::Newline || (l.kind == SyntaxKind::Keyword && l.raw.is_ascii()),
+            _ => l.kind == SyntaxKind::Keyword && l.raw.is_ascii(),
+        };
+        if ok {
+            out.push(i);
+        }
+    }
+    out
+}
+
+fn apply(ls: &[Leaf], p: usize, chosen: &[usize]) -> String {
+    let mut s = String::new();
+    let mut k = 0;
+    for (i, l) in ls.iter().enumerate() {
+        let hit = k < chosen.len() && chosen[k] == i;
+        if hit {
+            k += 1;
+            // "mixed": every claimed perturbation at once, chosen per site from the site index
+            let p = if p == 11 {
+                match l.kind {
+                    SyntaxKind::Whitespace => [0usize, 1, 2, 3][(i * 7 + l.start) % 4],
+                    SyntaxKind::Newline => [6usize, 7][(i + l.start) % 2],
+                    _ => [8usize, 9, 10][(i * 5 + l.start) % 3],
+                }
+            } else {
+                p
+            };
+            match p {
+                0 => s.push_str("   "),
+                1 => s.push('\t'),
+                2 => s.push('\n'),
+                3 => {
+                    s.push_str(&l.raw);
+                    s.push_str("/* c */");
+                    s.push_str(&l.raw);
+                }
+                4 => {
+                    s.push_str("/* c */");
+                    s.push_str(&l.raw);
+                }
+                5 => {
+                    s.push_str(&l.raw);
+                    s.push_str("/* c */");
+                }
+                6 => {
+                    s.push_str(" -- c");
+                    s.push_str(&l.raw);
+                }
+                7 => {
+                    s.push_str(&l.raw);
+                    s.push_str(&l.raw);
+                }
+                8 => s.push_str(&l.raw.to_ascii_uppercase()),
+                9 => s.push_str(&l.raw.to_ascii_lowercase()),
+                _ => s.push_str(&swapcase(&l.raw)),
+            }
+        } else {
+            s.push_str(&l.raw);
+        }
+    }
+    s
+}
+
+fn first_diff(a: &str, b: &str) -> String {
+    let (ab, bb) = (a.as_bytes(), b.as_bytes());
+    let mut i = 0;
+    while i < ab.len() && i < bb.len() && ab[i] == bb[i] {
+        i += 1;
+    }
+    let lo = i.saturating_sub(60);
+    let cut = |s: &str| {
+        let mut lo = lo.min(s.len());
+        while !s.is_char_boundary(lo) {
+            lo -= 1;
+        }
+        let mut hi = (i + 80).min(s.len());
+        while !s.is_char_boundary(hi) {
+            hi -= 1;
+        }
+        s[lo..hi].to_string()
+    };
+    format!("original …{}… vs perturbed …{}…", cut(a), cut(b))
+}
+
+struct Item {
+    dialect: String,
+    name: String,
+    text: String,
+}
+
+fn check_one(linter: &Linter, it: &Item, base: &Parsed, p: usize, mode: &str, chosen: &[usize], ls: &[Leaf], buf: &mut Buf) {
+    let text2 = apply(ls, p, chosen);
+    if text2 == it.text {
+        return;
+    }
+    buf.count("perturbed_parses", 1);
+    let cls = PERTURBATIONS[p];
+    // comments abutting a code token on one side: outside the claimed class (DESIGN 6.11), one key per side
+    let key = match p {
+        4 => "c11:comment-abuts-previous-code-token".to_string(),
+        5 => "c11:comment-abuts-next-code-token".to_string(),
+        _ => format!("c11:{}:{}:{}", it.dialect, cls, fnv(&text2)),
+    };
+    let input = json!({"dialect":it.dialect,"perturbation":cls,"mode":mode,"origin":it.name,"original":it.text,"perturbed":text2});
+    match parse(linter, &text2) {
+        Err(msg) => buf.direct(cls, false, &key, &format!("perturbed text panics the parser: {}", trunc(&msg, 120)), input),
+        Ok(None) => buf.direct(cls, false, &key, "original parses fully, perturbed text has unparsable sections", input),
+        Ok(Some(p2)) => {
+            if p2.shape == base.shape {
+                buf.direct(cls, true, "", "", Value::Null);
+            } else {
+                buf.direct(cls, false, &key, &format!("code-only tree differs: {}", first_diff(&base.shape, &p2.shape)), input);
+            }
+        }
+    }
+}
+
+fn run_file(ls_cache: &mut std::collections::HashMap<String, Linter>, it: &(Item, u64, bool), buf: &mut Buf) {
+    let (it, seed, thorough) = (&it.0, it.1, it.2);
+    let linter = ls_cache.entry(it.dialect.clone()).or_insert_with(|| mk_linter(&it.dialect));
+    buf.count("files", 1);
+    let base = match parse(linter, &it.text) {
+        Ok(Some(p)) => p,
+        Ok(None) => {
+            buf.count("files_not_fully_parsable_skipped", 1);
+            return;
+        }
+        Err(_) => {
+            buf.count("files_panicking_skipped", 1);
+            return;
+        }
+    };
+    buf.count("files_fully_parsable", 1);
+    let ls = leaves(&base.tree);
+    let mut rng = Rng::new(seed);
+    for p in 0..PERTURBATIONS.len() {
+        let st = sites(&ls, p);
+        if st.is_empty() {
+            continue;
+        }
+        buf.count("sites", st.len());
+        // globally
+        check_one(linter, it, &base, p, "global", &st, &ls, buf);
+        // random subsets
+        let n_sub = if thorough { 4 } else { 1 };
+        for _ in 0..n_sub {
+            let sub: Vec<usize> = st.iter().copied().filter(|_| rng.chance(1, 2)).collect();
+            if !sub.is_empty() && sub.len() < st.len() {
+                check_one(linter, it, &base, p, "subset", &sub, &ls, buf);
+            }
+        }
+        // single positions
+        let n_single = if thorough { 6.min(st.len()) } else { 2.min(st.len()) };
+        for _ in 0..n_single {
+            let one = [st[rng.below(st.len())]];
+            check_one(linter, it, &base, p, "single", &one, &ls, buf);
+        }
+    }
+}
+
+// ------------------------------------------------------------------ kernel correspondence
+fn kernel_cases(args: &Args, out: &mut Out) {
+    let thorough = args.thorough();
+    let mut rng = Rng::new(args.seed ^ 0xc11);
+    let mut buf = Buf::default();
+    let corpus = corpus();
+    let linter = mk_linter("ansi");
+    let dialect = linter.config().get_dialect();
+    let tables = Tables::default();
+    // token lists from real files
+    let n_files = if thorough { 400 } else { 80 };
+    let mut token_lists: Vec<Vec<ErasedSegment>> = vec![];
+    for _ in 0..n_files {
+        let f = &corpus[rng.below(corpus.len())];
+        if f.text.len() > 1200 || !f.text.is_ascii() {
+            continue;
+        }
+        if let Ok(Ok((toks, _))) = catch(|| dialect.lexer().lex(&tables, StringOrTemplate::String(&f.text))) {
+            token_lists.push(toks);
+        }
+    }
+    // skip_forward / skip_backward
+    for toks in &token_lists {
+        let flags: Vec<bool> = toks.iter().map(|t| t.is_code()).collect();
+        let n = toks.len() as u32;
+        for _ in 0..(if thorough { 12 } else { 6 }) {
+            let a = rng.below(n as usize + 1) as u32;
+            let b = rng.below(n as usize + 1) as u32;
+            // the Rust functions index segments[idx]: keep max_idx <= len (as every call site does)
+            let fwd = catch(|| skip_start_index_forward_to_code(toks, a, b));
+            let bwd = catch(|| skip_stop_index_backward_to_code(toks, a, b));
+            let g = |r: &Result<u32, String>| match r {
+                Ok(v) => format!("(Some {})", v),
+                Err(_) => "None".to_string(),
+            };
+            let nontrivial = fwd.as_ref().map(|v| *v != a).unwrap_or(false) || bwd.as_ref().map(|v| *v != a).unwrap_or(false);
+            buf.case(
+                "skip",
+                "skip-real-tokens",
+                nontrivial,
+                g_tuple(&[g_list(flags.iter().map(|b| g_bool(*b))), g_n(a as usize), g_n(b as usize)]),
+                g_pair(&g(&fwd), &g(&bwd)),
+                json!({"input":{"kernel":"skip"},"flags":flags.iter().map(|b| *b as u8).collect::<Vec<_>>(),"a":a,"b":b}),
+            );
+        }
+    }
+    // StringParser / MultiStringParser: templates × real tokens (with case variants)
+    let indent_cfg: AHashMap<String, bool> = AHashMap::new();
+    let mut pc = ParseContext::new(dialect, &indent_cfg);
+    let templates = ["select", "FROM", "Where", "a", "t", "group", "BY", "é", "straße", "İ", "ſ", "k"];
+    let mut n_kw = 0;
+    'outer: for toks in &token_lists {
+        for (i, t) in toks.iter().enumerate() {
+            if !t.raw().is_ascii() && rng.chance(1, 2) {
+                continue;
+            }
+            if n_kw >= (if thorough { 6000 } else { 1200 }) {
+                break 'outer;
+            }
+            if !(t.is_code() || rng.chance(1, 6)) {
+                continue;
+            }
+            let tpl = if rng.chance(1, 2) { t.raw().to_string() } else { templates[rng.below(templates.len())].to_string() };
+            let tpl = match rng.below(3) {
+                0 => tpl.to_uppercase(),
+                1 => tpl.to_lowercase(),
+                _ => tpl,
+            };
+            if !tpl.is_ascii() || !t.raw().is_ascii() {
+                // the model is ASCII only; non-ASCII templates/raws are counted and skipped
+                buf.count("string_parser_non_ascii_skipped", 1);
+                continue;
+            }
+            n_kw += 1;
+            let sp = StringParser::new(&tpl, SyntaxKind::Keyword);
+            let r1 = catch(|| sp.match_segments(toks, i as u32, &mut pc).map(|m| m.span.end - m.span.start).unwrap_or(99));
+            let tpl2 = templates[rng.below(templates.len())].to_uppercase();
+            let tpls: Vec<String> = vec![tpl.to_uppercase(), tpl2].into_iter().filter(|s| s.is_ascii()).collect();
+            let mp = MultiStringParser::new(tpls.clone(), SyntaxKind::Keyword);
+            let r2 = catch(|| mp.match_segments(toks, i as u32, &mut pc).map(|m| m.span.end - m.span.start).unwrap_or(99));
+            let matched = r1.as_ref().map(|v| *v == 1).unwrap_or(false);
+            buf.case(
+                "strmatch",
+                "string-parser-real-tokens",
+                matched,
+                g_tuple(&[g_str(&tpl), g_list(tpls.iter().map(|s| g_str(s))), g_bool(t.is_code()), g_str(t.raw())]),
+                g_pair(&g_bool(matched), &g_bool(r2.as_ref().map(|v| *v == 1).unwrap_or(false))),
+                json!({"input":{"kernel":"strmatch"},"template":tpl,"raw":t.raw().as_str(),"is_code":t.is_code()}),
+            );
+        }
+    }
+    // block comment subdivision (ANSI matcher: newline subdivider, whitespace trim)
+    let pieces = ["a", " ", "  ", "\t", "\n", "\r\n", "b c", "*", "/", "noqa", "\n\n", " \n ", "x\t"];
+    for _ in 0..(if thorough { 3000 } else { 600 }) {
+        let n = rng.range(0, 7);
+        let body: String = (0..n).map(|_| pieces[rng.below(pieces.len())]).collect();
+        if body.contains("*/") || body.contains("/*") || body.starts_with('/') || body.ends_with('/') || !body.is_ascii() {
+            continue;
+        }
+        let text = format!("/*{}*/", body);
+        let r = catch(|| dialect.lexer().lex(&tables, StringOrTemplate::String(&text)));
+        let Ok(Ok((toks, _))) = r else {
+            buf.count("block_comment_lex_failed", 1);
+            continue;
+        };
+        let elems: Vec<(usize, String)> = toks
+            .iter()
+            .filter(|t| t.get_type() != SyntaxKind::EndOfFile)
+            .map(|t| {
+                let k = match t.get_type() {
+                    SyntaxKind::BlockComment => 0,
+                    SyntaxKind::Newline => 1,
+                    SyntaxKind::Whitespace => 2,
+                    _ => 9,
+                };
+                (k, t.raw().to_string())
+            })
+            .collect();
+        let all_noncode = toks.iter().all(|t| !t.is_code());
+        buf.hyp("H_block_comment_tokens_are_non_code", "blocking", all_noncode, json!({"text":text}));
+        buf.case(
+            "subdiv",
+            "block-comment",
+            elems.len() > 1,
+            g_str(&text),
+            g_list(elems.iter().map(|(k, r)| g_pair(&g_n(*k), &g_str(r)))),
+            json!({"input":{"kernel":"subdiv"},"text":text,"tokens":elems.iter().map(|(k,r)| json!([k,r])).collect::<Vec<_>>()}),
+        );
+    }
+    out.absorb(buf);
+}
+
+// ------------------------------------------------------------------ main
+pub fn main(args: &Args) {
+    silence_panics();
+    let mut out = Out::new(&args.out);
+    let mut items: Vec<(Item, u64, bool)> = vec![];
+    let thorough = args.thorough();
+    if let Some(path) = args.flag("--replay-input") {
+        let v: Value = serde_json::from_str(&std::fs::read_to_string(path).unwrap()).unwrap();
+        let v = if v.get("input").is_some() { v["input"].clone() } else { v };
+        if v.get("kernel").is_some() {
+            kernel_cases(args, &mut out);
+            out.finish();
+            return;
+        }
+        // re-run exactly one (original, perturbed) pair
+        let d = v["dialect"].as_str().unwrap_or("ansi");
+        let linter = mk_linter(d);
+        let mut buf = Buf::default();
+        let orig = v["original"].as_str().unwrap_or("");
+        let pert = v["perturbed"].as_str().unwrap_or("");
+        let cls = v["perturbation"].as_str().unwrap_or("replay").to_string();
+        let key = match cls.as_str() {
+            "block-comment-left-of-whitespace" => "c11:comment-abuts-previous-code-token".to_string(),
+            "block-comment-right-of-whitespace" => "c11:comment-abuts-next-code-token".to_string(),
+            _ => format!("c11:{}:{}:{}", d, cls, fnv(pert)),
+        };
+        match (parse(&linter, orig), parse(&linter, pert)) {
+            (Ok(Some(a)), Ok(Some(b))) => {
+                let ok = a.shape == b.shape;
+                buf.direct("replay", ok, &key, &format!("code-only tree differs: {}", first_diff(&a.shape, &b.shape)), v.clone());
+            }
+            (Ok(Some(_)), Ok(None)) => buf.direct("replay", false, &key, "original parses fully, perturbed text has unparsable sections", v.clone()),
+            (Ok(Some(_)), Err(m)) => buf.direct("replay", false, &key, &format!("perturbed text panics the parser: {}", m), v.clone()),
+            _ => buf.direct("replay", true, "", "original not fully parsable: outside the property", Value::Null),
+        }
+        out.absorb(buf);
+        out.finish();
+        return;
+    }
+    kernel_cases(args, &mut out);
+    // regression: the two-sided comment must not change the tree in any dialect
+    {
+        let mut buf = Buf::default();
+        for d in DIALECTS {
+            let linter = mk_linter(d);
+            for (orig, pert, cls) in [
+                ("SELECT a FROM t\n", "SELECT a /* c */ FROM t\n", "block-comment-in-whitespace"),
+                ("SELECT a FROM t\n", "select\n\ta\n\n\nfrom -- c\n t\n", "mixed"),
+                ("SELECT a FROM t\n", "SELECT a /* c */FROM t\n", "block-comment-right-of-whitespace"),
+            ] {
+                let key = if cls == "block-comment-right-of-whitespace" { "c11:comment-abuts-next-code-token".to_string() } else { format!("c11:{}:{}:{}", d, cls, fnv(pert)) };
+                let input = json!({"dialect":d,"perturbation":cls,"mode":"regression","origin":"regression","original":orig,"perturbed":pert});
+                match (parse(&linter, orig), parse(&linter, pert)) {
+                    (Ok(Some(a)), Ok(Some(b))) => buf.direct("regression", a.shape == b.shape, &key, "code-only tree differs", input),
+                    (Ok(Some(_)), Ok(None)) => buf.direct("regression", false, &key, "original parses fully, perturbed text has unparsable sections", input),
+                    (Ok(Some(_)), Err(m)) => buf.direct("regression", false, &key, &format!("perturbed text panics the parser: {}", m), input),
+                    _ => buf.count("regression_original_not_parsable", 1),
+                }
+            }
+        }
+        out.absorb(buf);
+    }
+    let mut rng = Rng::new(args.seed);
+    for f in corpus() {
+        if f.text.len() > (if thorough { 20000 } else { 6000 }) {
+            continue;
+        }
+        let seed = rng.next();
+        items.push((Item { dialect: f.dialect.clone(), name: f.name.clone(), text: f.text }, seed, thorough));
+    }
+    for (i, (name, text)) in rule_snippets().into_iter().enumerate() {
+        if !thorough && i % 3 != 0 {
+            continue;
+        }
+        let seed = rng.next();
+        items.push((Item { dialect: "ansi".into(), name, text }, seed, thorough));
+    }
+    out.stat(json!({"candidate_files": items.len()}));
+    par_run(&mut out, &items, std::collections::HashMap::<String, Linter>::new, run_file);
+    out.finish();
 }
